@@ -37,4 +37,7 @@ with open('/verif/seeded/SUMMARY.md', 'w') as f:
     f.write("\nChanges not caught by the check of their own property: %s\n" % (", ".join(home_missed) or "none"))
     f.write("\nOf these, not pursued because the change breaks nothing a listed statement promises (DESIGN.md section 12, review and round 7): %s\n" % ", ".join(x for x in home_missed if x in withdrawn))
     f.write("\nThe others (%s) break the value-preservation / applicability property rather than the one their author named and are caught by that check (see `caught by`).\n" % ", ".join(x for x in home_missed if x not in withdrawn))
+with open('/verif/seeded/SUMMARY.md', 'a') as f:
+    f.write("\n`seeded/prompts/` keeps one example of the prompt each round's agents were given (rounds 1, 8, 9: the property text only; "
+            "rounds 2-3: plus the earlier ideas; rounds 4-7: plus a general description of what the checks vary).\n")
 print("written", len(rows))
